@@ -94,7 +94,7 @@ MWEIGHTS = {
     'blacklist': 2, 'group': 3, 'del_group': 1, 'clock': 6, 'cell_event': 1,
     'integrity': 2, 'restart': 0, 'noop': 1, 'blackout_server': 1, 'partition_schedule': 1, 'bucket_new': 1,
     'stale_finished': 1, 'swap_apps': 1, 'retention_update': 1, 'bucket_remove': 0, 'server_delete_event_lost': 1,
-    'servers_reload_all': 1,
+    'servers_reload_all': 1, 'bucket_reparent': 1,
 }
 
 
@@ -704,6 +704,23 @@ class MasterDriver:
                 for v in victims:
                     del self.Z['apps'][v]
                 self.ops.append(('delete_apps', victims))
+        elif kind == 'bucket_reparent' and self.depth == 2:
+            # a rack is re-declared under another pod (masterapi.create_bucket on an existing id): a running master
+            # never loads a bucket twice and keeps its hierarchy, its successor builds the new one
+            racks = sorted(b for b, h in self.H.buckets.items() if h['level'] == 'rack')
+            pods = sorted(b for b, h in self.H.buckets.items() if h['level'] == 'pod')
+            rack = rng.choice(racks)
+            others = [p_ for p_ in pods if p_ != self.Z['buckets'][rack]]
+            if others:
+                pod = rng.choice(others)
+                if self.explicit_levels:
+                    if self.zkutils.put(self.admin, self.z.path.bucket(rack), {'traits': 0, 'parent': pod, 'level': 'rack'},
+                                        check_content=True):
+                        self.api.create_event(self.admin, 0, 'buckets', None)
+                else:
+                    self.api.create_bucket(self.admin, rack, pod)
+                self.Z['buckets'][rack] = pod
+                self.ops.append(('bucket_reparent', rack, pod))
         elif kind == 'retention_update' and self.Z['apps']:
             # the manifest of a scheduled instance is rewritten in place (another data retention timeout) and the
             # master is told to reload it ('apps' event), as update_app_priorities does for the priority
@@ -783,6 +800,8 @@ class MasterDriver:
         self.pending_known = set()
         for a in self.Z['allocs']:
             a['_eff'] = self._effective_traits(a['traits'])
+        for b, parent in self.Z['buckets'].items():
+            self.H.buckets[b]['parent'] = parent         # a new master builds the hierarchy as it is declared now
         self.master.load_model()
         self.loaded = self.snapshot_model()
         if self.cutter is not None:
